@@ -465,7 +465,34 @@ func TestC20Reported(t *testing.T) {
 		t.Run(kind, func(t *testing.T) {
 			rapid.Check(t, func(t *rapid.T) {
 				cfg := genPCfg(t, kind, 200)
-				text := genText(t, "text", 500)
+				sa := kind == "GSAP" || kind == "OSAP"
+				tl := 500
+				if sa {
+					tl = 200 // four parsers, one suffix sort per refill of a tiny buffer
+				}
+				text := genText(t, "text", tl)
+				if !sa && rapid.IntRange(0, 9).Draw(t, "noisy") < 4 {
+					// many distinct n-grams: a table of another size than the
+					// one reported sees other collisions
+					// (every refill of a tiny buffer costs a suffix sort or a
+					// sweep over the whole hash table: short texts for those)
+					text = genNoisyText(t, "noisy", 400)
+					if rapid.IntRange(0, 2).Draw(t, "defaultBits") == 0 {
+						text = genNoisyText(t, "noisyLong", 1500)
+						cfg.BufferSize = rapid.IntRange(256, 4096).Draw(t, "bufForDefaultBits")
+						cfg.ShrinkSize = 0
+						cfg.HashBits, cfg.HashBits1, cfg.HashBits2 = 0, 0, 0
+						if cfg.InputLen == 2 {
+							cfg.InputLen = 3 // 18 bits are not accepted for 2 bytes
+						}
+						if cfg.InputLen1 == 2 {
+							cfg.InputLen1 = 3
+							if cfg.InputLen2 != 0 && cfg.InputLen2 <= 3 {
+								cfg.InputLen2 = 4
+							}
+						}
+					}
+				}
 				c := reportedCase{Cfg: cfg, Text: text}
 				msg, bad, rej := checkReported(c)
 				if bad {
